@@ -10,17 +10,19 @@ Local Open Scope char_scope.
 
 (* ---------------------------------------------------------------- result domains *)
 
-(* int: None only if allow_none, Auto, or an integer (a Python int, or the bool that eval returned:
+(* in_bounds lo hi n  :=  (value_min = Some b -> b <= n) /\ (value_max = Some b -> n <= b)  in the exact order
+   of Python numbers; a comparison involving NaN is false, so neither a NaN value nor a NaN bound passes.
+
+   int: None only if allow_none, Auto, or an integer (a Python int, or the bool that eval returned:
    bool is a subclass of int and int_from_number hands it back unchanged) within the bounds *)
 Theorem C10_int_domain : forall pyeval c ws v,
   from_words pyeval (CInt c) ws = Ok v ->
   (v = PNone /\ allow_none c = true) \/ v = PAuto \/
-  exists n, v = PNum n /\ intlike n /\ in_bounds_int (vmin c) (vmax c) n.
+  exists n, v = PNum n /\ intlike n /\ in_bounds (vmin c) (vmax c) n.
 Proof. exact int_domain. Qed.
 Print Assumptions C10_int_domain.
 
-(* float: a float (finite, -0.0, inf, nan).  in_bounds says value_min <= n <= value_max in the exact
-   order *unless n or the bound is NaN* - the escape is real, see C10_refuted_nan_bounds *)
+(* float: a float (finite, -0.0, inf, nan) with value_min <= n <= value_max *)
 Theorem C10_float_domain : forall pyeval c ws v,
   from_words pyeval (CFloat c) ws = Ok v ->
   (v = PNone /\ allow_none c = true) \/ v = PAuto \/
@@ -65,22 +67,32 @@ Theorem C10_int_value_exact : forall m e ws n,
 Proof. exact int_from_number_exact. Qed.
 Print Assumptions C10_int_value_exact.
 
-(* what passing the code's test "not (value < bound)" means: the order is total away from NaN *)
+(* with value_min or value_max declared, the result is never NaN (former finding F6-nan, repaired) *)
+Theorem C10_float_bounded_never_nan : forall pyeval c ws,
+  vmin c <> None \/ vmax c <> None -> from_words pyeval (CFloat c) ws <> Ok (PNum NNaN).
+Proof. exact float_bounded_never_nan. Qed.
+Print Assumptions C10_float_bounded_never_nan.
+
+Theorem C10_floats_bounded_never_nan : forall pyeval c ws l,
+  lvmin c <> None \/ lvmax c <> None -> from_words pyeval (CFloats c) ws = Ok (PList l) -> ~ In (PNum NNaN) l.
+Proof. exact floats_bounded_never_nan. Qed.
+Print Assumptions C10_floats_bounded_never_nan.
+
+(* in general: being within declared bounds excludes NaN on either side *)
+Theorem C10_bounds_exclude_nan : forall lo hi n,
+  in_bounds lo hi n -> (lo <> None \/ hi <> None -> n <> NNaN) /\ lo <> Some NNaN /\ hi <> Some NNaN.
+Proof. exact (fun lo hi n H => conj (in_bounds_not_nan lo hi n H) (in_bounds_bound_not_nan lo hi n H)). Qed.
+Print Assumptions C10_bounds_exclude_nan.
+
+(* the order is total away from NaN, and <= excludes the converse < *)
 Theorem C10_order_total : forall a b,
   num_lt a b = false -> a <> NNaN -> b <> NNaN -> num_le b a = true.
 Proof. exact num_lt_false_le. Qed.
 Print Assumptions C10_order_total.
 
-(* F6: NaN is returned although both bounds are set (value < min and value > max are both False) *)
-Theorem C10_refuted_nan_bounds : exists pyeval c ws,
-  vmin c = Some (NInt 0) /\ vmax c = Some (NInt 3) /\
-  from_words pyeval (CFloat c) ws = Ok (PNum NNaN) /\
-  num_le (NInt 0) NNaN = false /\ num_le NNaN (NInt 3) = false.
-Proof.
-  exists (lookup_ev [(s_ "nan", ENum NNaN)]), (mknconv (Some (NInt 0)) (Some (NInt 3)) true), [mkword (s_ "nan") QN 1].
-  vm_compute. repeat split; reflexivity.
-Qed.
-Print Assumptions C10_refuted_nan_bounds.
+Theorem C10_order_le_not_gt : forall a b, num_le a b = true -> num_lt b a = false.
+Proof. exact num_le_lt_excl. Qed.
+Print Assumptions C10_order_le_not_gt.
 
 (* ---------------------------------------------------------------- accepted spellings *)
 
@@ -179,7 +191,28 @@ Example C10_ex_int_none : from_words ex_oracle ex_int (w1 "NoNe") = UErr (s_ "Ca
 Proof. vm_compute. reflexivity. Qed.
 Example C10_ex_int_bool : from_words ex_oracle ex_int (w1 "(True)") = Ok (PNum (NBool true)).
 Proof. vm_compute. reflexivity. Qed.
-Example C10_ex_int_inf : from_words ex_oracle ex_int (w1 "inf") = Crash (s_ "OverflowError").
+Example C10_ex_int_inf : from_words ex_oracle ex_int (w1 "inf") = UErr (s_ "NotInteger") [] 1.
+Proof. vm_compute. reflexivity. Qed.
+(* nan with a bound is refused: BelowMin when value_min is set, else AboveMax; accepted without bounds *)
+Definition nan_oracle : str -> option evr := lookup_ev [(s_ "nan", ENum NNaN); (s_ "10**400", ENum (NInt (10 ^ 400)))].
+Example C10_ex_nan_min :
+  from_words nan_oracle (CFloat (mknconv (Some (NInt 0)) (Some (NInt 3)) true)) (w1 "nan") = UErr (s_ "BelowMin") [] 1.
+Proof. vm_compute. reflexivity. Qed.
+Example C10_ex_nan_max :
+  from_words nan_oracle (CFloat (mknconv None (Some (NInt 3)) true)) (w1 "nan") = UErr (s_ "AboveMax") [] 1.
+Proof. vm_compute. reflexivity. Qed.
+Example C10_ex_nan_free :
+  from_words nan_oracle (CFloat (mknconv None None true)) (w1 "nan") = Ok (PNum NNaN).
+Proof. vm_compute. reflexivity. Qed.
+Example C10_ex_nan_elem :
+  from_words nan_oracle (CFloats (mklconv (Some 2%Z) (Some 2%Z) (Some (NInt 0)) None false false)) (w1 "1 nan")
+  = UErr (s_ "BelowMin") [] 1.
+Proof. vm_compute. reflexivity. Qed.
+Example C10_ex_nan_bound :
+  from_words nan_oracle (CFloat (mknconv (Some NNaN) None true)) (w1 "1") = UErr (s_ "BelowMin") [] 1.
+Proof. vm_compute. reflexivity. Qed.
+Example C10_ex_huge_float :
+  from_words nan_oracle (CFloat (mknconv None None true)) (w1 "10**400") = UErr (s_ "NotFloat") [] 1.
 Proof. vm_compute. reflexivity. Qed.
 Example C10_ex_int_junk : from_words ex_oracle ex_int (w1 "sin") = UErr (s_ "NotInteger") [] 1.
 Proof. vm_compute. reflexivity. Qed.
